@@ -390,6 +390,7 @@ def malform(text, rnd, decl_names):
             ("declared-function-argument-sort", text + "(declare-fun |uf!s| (Int) Int)(assert (= (|uf!s| true) 1))\n"),
             ("declared-function-arity", text + "(declare-fun |uf!a| (Int) Int)(assert (= (|uf!a| 1 2) 1))\n"),
             ("let-binds-a-name-twice", text + "(assert (let ((|lv d| 1) (|lv d| 2)) (= |lv d| 1)))\n"),
+            ("real-division-of-integer-terms", text + "(declare-fun |iv!| () Int)(assert (= 0.5 (/ (+ |iv!| 1) 4)))\n"),
             ("repeat-zero", text + "(assert (= ((_ repeat 0) #b01) #b01))\n"),
             ("real-division-of-non-arithmetic-constants", text + "(assert (= (/ #b01 #b11) 1.0))\n"),
             ("real-division-of-non-arithmetic-constants", text + "(assert (= (/ \"a\" \"b\") 1.0))\n"),
@@ -404,6 +405,8 @@ def malform(text, rnd, decl_names):
             ("bit-vector-operator-on-integers", text + "(assert (bvult 1 2))\n"),
             ("bit-vector-operator-on-integers", text + "(assert (= (concat 1 #b1) #b11))\n"),
             ("string-operator-on-integers", text + "(assert (= (str.len 5) 1))\n"),
+            ("as-const-value-sort", text + "(declare-fun |ar!r| () (Array Int Real))(assert (= |ar!r| ((as const (Array Int Int)) 1.5)))\n"),
+            ("as-const-value-sort", text + "(declare-fun |ar!b| () (Array Int Bool))(assert (= |ar!b| ((as const (Array Int Int)) true)))\n"),
             ("as-const-value-sort", text + "(assert (= ((as const (Array Int Int)) true) ((as const (Array Int Int)) 0)))\n"),
             ("boolean-connective-on-integers", text + "(assert (and 1 2))\n"),
             ("arithmetic-on-booleans", text + "(assert (= (- true) 1))\n"),
